@@ -921,7 +921,8 @@ func (sc *Scenario) writeWeather(dir string) error {
 				cols[at] = wcol{name, func(d *WeatherDay) string { return f1(d.Tmax + off) }}
 			}
 			if rw.Bool(0.4) {
-				name := pickS(rw, []string{"wind gust", "tmax corrected", "precip raw", "globrad clear", "tmin grass"})
+				// ... or a name that is the other layout's spelling of a known quantity (RAD = a station's net radiation next to globrad)
+				name := pickS(rw, []string{"wind gust", "tmax corrected", "precip raw", "globrad clear", "tmin grass", "RAD", "WIND", "RH", "PREC", "TMAX", "TMIN"})
 				cols = append(cols, wcol{name, func(d *WeatherDay) string { return f1(d.Wind + 37.5) }})
 			}
 		}
